@@ -13,6 +13,16 @@ use util::*;
 static GLOBAL: galloc::G = galloc::G;
 
 static CURRENT: Mutex<String> = Mutex::new(String::new());
+static OUT_PATH: Mutex<String> = Mutex::new(String::new());
+static PLAN_SO_FAR: Mutex<String> = Mutex::new(String::new());
+
+pub fn begin_plan(header: &str) {
+    if let Ok(mut p) = PLAN_SO_FAR.lock() {
+        p.clear();
+        p.push_str(header);
+        p.push('\n');
+    }
+}
 
 pub fn set_current(plan: usize, op_idx: usize, op: &Op) {
     let was = galloc::is_recording();
@@ -21,6 +31,10 @@ pub fn set_current(plan: usize, op_idx: usize, op: &Op) {
         c.clear();
         use std::fmt::Write as _;
         let _ = write!(c, "plan={} op={} {}", plan, op_idx, op.to_text());
+    }
+    if let Ok(mut p) = PLAN_SO_FAR.lock() {
+        p.push_str(&op.to_text());
+        p.push('\n');
     }
     if std::env::var_os("BVH_TRACE_OPS").is_some() {
         eprintln!("BEGIN plan={} op={} {}", plan, op_idx, op.to_text());
@@ -34,6 +48,12 @@ pub fn set_current(plan: usize, op_idx: usize, op: &Op) {
 pub fn hang_exit() -> ! {
     galloc::recording_off();
     let cur = CURRENT.try_lock().map(|c| c.clone()).unwrap_or_default();
+    let path = OUT_PATH.try_lock().map(|c| c.clone()).unwrap_or_default();
+    if let Ok(mut f) = std::fs::OpenOptions::new().append(true).open(&path) {
+        let _ = writeln!(f, "\nORACLE C09 does-not-terminate {}", cur);
+    }
+    let plan = PLAN_SO_FAR.try_lock().map(|c| c.clone()).unwrap_or_default();
+    let _ = std::fs::write(format!("{}.hangplan", path), plan);
     let _ = writeln!(std::io::stdout(), "ORACLE C09 does-not-terminate {}", cur);
     let _ = std::io::stdout().flush();
     std::process::exit(3);
@@ -63,12 +83,17 @@ fn run_m(plan: &mut Plan, gen: Option<(Profile, usize)>, sa: usize, fo: usize) -
 fn main() {
     let args: Vec<String> = std::env::args().collect();
     let toks: Vec<&str> = args.iter().map(|s| s.as_str()).collect();
-    std::panic::set_hook(Box::new(|_| {
+    std::panic::set_hook(Box::new(|info| {
+        let was = galloc::is_recording();
         galloc::recording_off();
+        if !was || std::env::var_os("BVH_SHOW_PANICS").is_some() {
+            eprintln!("harness panic (recording={}): {}", was, info);
+        }
     }));
     let cmd = toks.get(1).copied().unwrap_or("");
     let out_path = kv(&toks, "out").unwrap_or("/dev/stdout").to_string();
     let plans_path = kv(&toks, "plans_out").map(|s| s.to_string());
+    *OUT_PATH.lock().unwrap() = out_path.clone();
     let mut out = std::io::BufWriter::new(std::fs::File::create(&out_path).expect("open out"));
     let sa = static_addr();
     let fo = footer_overhead();
